@@ -24,7 +24,7 @@ if [ $ok -ne 1 ]; then echo "$name: EXISTING SUITE FAILS"; grep -v "^ok\|no test
 echo "$name: compiles, existing suite passes"
 for p in $props; do
   out=$(VERIF_SRC="$W" VERIF_OUT_DIR=/tmp/mw/$name.work TMPDIR=/tmp ./check $p ${TIER:-quick} 2>&1); rc=$?
-  sigs=$(echo "$out" | grep "^  signature" | sed 's/ (.*//; s/  signature //' | tr '\n' ' ')
+  sigs=$(echo "$out" | grep "^  signature" | sed 's/ (.*//; s/  signature //; s/ - the process dies.*//' | sort -u | head -12 | tr '\n' ' ')
   echo "$name: $p exit=$rc $sigs"
   if [ $rc -ne 0 ] && [ -n "$VERBOSE" ]; then echo "$out" | tail -15; fi
 done
